@@ -85,6 +85,40 @@ func (r *Report) Floor(rule string, n int) { r.floors[rule] = n }
 
 func (r *Report) Count(k string, n int) { r.Counters[k] += n }
 
+// Borrow runs f, a rule function written for another property, and keeps only the obligations
+// and floors of the rules named in mapping, renamed to this property's rule ids. The same
+// source facts can be a necessary condition of more than one property.
+func (r *Report) Borrow(mapping map[string]string, f func()) { r.BorrowIf(mapping, nil, f) }
+
+// BorrowIf is Borrow restricted to the obligations keep accepts (floors are not carried over).
+func (r *Report) BorrowIf(mapping map[string]string, keep func(Obligation) bool, f func()) {
+	n := len(r.Obls)
+	floors := r.floors
+	r.floors = map[string]int{}
+	expl, tech, nd, as := r.Explanation, r.Technique, r.NotDecided, r.Assumptions
+	f()
+	r.Explanation, r.Technique, r.NotDecided, r.Assumptions = expl, tech, nd, as
+	kept := r.Obls[:n:n]
+	for _, o := range r.Obls[n:] {
+		if to, ok := mapping[o.Rule]; ok && (keep == nil || keep(o)) {
+			o.Rule = to
+			kept = append(kept, o)
+		}
+	}
+	r.Obls = kept
+	for rule, k := range r.floors {
+		if keep != nil {
+			break
+		}
+		if to, ok := mapping[rule]; ok {
+			if floors[to] < k {
+				floors[to] = k
+			}
+		}
+	}
+	r.floors = floors
+}
+
 type knownFile struct {
 	Findings []struct {
 		Property string `json:"property"`
